@@ -115,7 +115,8 @@ class InstrShape(PipeShape):
             return [(f'{tag}.statement_satisfying_every_constraint_is_assembled', z3.Not(accept))]
         ref = [E.bvval(b) for b in self.params['stmt'].get('lead_bytes', ())] + O.encode_fields(fields) + [E.bvval(238)]
         if self.params.get('muted'):
-            ref = [E.bvval(0)] * size + [E.bvval(238)]
+            # nothing is emitted, but the addresses advance over the whole statement (incl. the earlier steps of a macro)
+            ref = [E.bvval(0)] * (len(self.params['stmt'].get('lead_bytes', ())) + size) + [E.bvval(238)]
         obl = []
         if 'C12' in props:
             obl.append(('C12.accepted_statement_satisfies_every_configured_constraint', accept))
